@@ -5,7 +5,7 @@
    the assigning pass cannot raise, so a rejected request is rejected before the first assignment (the receiver of a rejected call
    is unchanged).  Only statements, `exact`, Print Assumptions. *)
 From Coq Require Import List ZArith Bool.
-From PV Require Import Np.NpZ Np.NpZ3 Np.NpZ3e Np.NpZ4 Gen.GenKtensor4 Model.W4KtensorVec Model.C19Guards Proofs.C19W5K.
+From PV Require Import Np.NpZ Np.NpZ3 Np.NpZ3e Np.NpZ4 Gen.GenKtensor4 Gen.GenKtensor4b Model.W4KtensorVec Model.C19Guards Proofs.C19W5K.
 Import ListNotations.
 Local Open Scope Z_scope.
 
@@ -35,4 +35,19 @@ Example C19_ktensor_update_gen_ex :
   ktensor_update c19_k23 [-2] [1; 2; 3; 4] = Err /\ ktensor_update c19_k23 [0; 0] [1; 2; 3; 4; 5; 6; 7; 8] = Err /\
   ktensor_update c19_k23 [0; 1] [1; 2; 3; 4; 5; 6; 7; 8; 9] = Err /\
   ktensor_update c19_k23 [1] [1; 2; 3; 4; 5; 6] = Ok (mkkt [1; 1] [[[1; 2]; [3; 4]]; [[1; 4]; [2; 5]; [3; 6]]]).
+Proof. repeat split; reflexivity. Qed.
+
+(* the classmethod ktensor.from_vector as generated (Gen/GenKtensor4b.v): whatever the guard model rejects the generated method
+   rejects, and a request it answers had the precondition (len(data) a multiple of sum(shape) [+ 1]) *)
+Theorem C19_from_vector_gen_rejects : forall (data shape : vec) (cw : bool),
+  guard_from_vector (zlen data) shape cw = Err -> ktensor_from_vector tt data shape cw = Err.
+Proof. exact from_vector_gen_rejects. Qed.
+Print Assumptions C19_from_vector_gen_rejects.
+Theorem C19_from_vector_gen_answered_pre : forall (data shape : vec) (cw : bool) (k : ktz),
+  ktensor_from_vector tt data shape cw = Ok k -> pre_from_vector (zlen data) shape cw = true.
+Proof. exact from_vector_gen_answered_pre. Qed.
+Print Assumptions C19_from_vector_gen_answered_pre.
+Example C19_from_vector_gen_ex :
+  ktensor_from_vector tt [1; 2; 3; 4; 5] [2; 3] false = Ok (mkkt [1] [[[1]; [2]]; [[3]; [4]; [5]]]) /\
+  ktensor_from_vector tt [1; 2; 3; 4; 5; 6] [2; 3] false = Err /\ ktensor_from_vector tt [1; 2; 3; 4; 5] [2; 3] true = Err.
 Proof. repeat split; reflexivity. Qed.
